@@ -115,8 +115,10 @@ struct Conn
             prev = e;
             transitions += loop->settle();
             response += lp::client_recv_all(cfd);
-            if (!response.empty())
-                break; // answered (handler ran or error): the client does not send the rest
+            // refused by the framework: the client does not send the rest. A well-formed message is always sent to
+            // its last byte, whatever has come back meanwhile (an answer that arrives early does not un-send it)
+            if (!response.empty() && ev.error)
+                break;
         }
         Result r;
         if (obs.requests.size() > before)
@@ -200,8 +202,8 @@ struct ClientConn
             conn->handleResponsePacket(ev.bytes.data() + prev, e - prev);
             ++transitions;
             prev = e;
-            if (settled)
-                break;
+            if (settled && ev.error)
+                break; // (a well-formed response arrives to its last byte even if the promise settled early)
         }
         Result r;
         r.obs         = settled ? outcome : "PENDING";
